@@ -1116,6 +1116,11 @@ impl<T: Read + Seek> Read for BlocksToFileReader<'_, T> {
                             self.move_to_next_block()?;
                             return self.read(into);
                         }
+                        if length == 0 && !into.is_empty() {
+                            // Empty block: nothing to read, and `Ok(0)` would
+                            // wrongly signal the end of the file -> next block
+                            return self.read(into);
+                        }
                         let count = self.src.by_ref().take(length).read(into)?;
                         let length_usize = usize::try_from(length).map_err(|_| {
                             std::io::Error::new(
